@@ -371,11 +371,28 @@ func c12SyncComparesPrefix(c *Ctx) {
 			"the announcement is dropped as soon as the subscriber has any address in the session allocator: a remote put that moves a known subscriber to another prefix is ignored, memory keeps the old address (the announced one stays free locally and can be handed to a second subscriber) while the store holds the new one")
 	}
 	set := false
+	movable := true
+	nilTest := func(ft flow.Fact) (nonNil, ok bool) {
+		bo, isBin := ft.Cond.(*ssa.BinOp)
+		if !isBin || !((isNil(bo.Y) && fromLookup(bo.X, 0)) || (isNil(bo.X) && fromLookup(bo.Y, 0))) {
+			return false, false
+		}
+		return (bo.Op == token.NEQ && ft.Pol) || (bo.Op == token.EQL && !ft.Pol), true
+	}
 	for _, call := range flow.Calls(f) {
 		if g := call.Common().StaticCallee(); g != nil && g.Name() == "SetAllocation" && flow.RecvTypeName(g) == "IPAllocator" {
 			set = true
+			// shape-independent form of the same clause: if the session Lookup result guards the apply at all, the apply
+			// is reachable with a non-nil result (a known subscriber can be moved)
+			guarded := flow.SomePathHas(call.Block(), func(ft flow.Fact) bool { _, ok := nilTest(ft); return ok })
+			withHeld := flow.SomePathHas(call.Block(), func(ft flow.Fact) bool { nn, ok := nilTest(ft); return ok && nn })
+			if guarded && !withHeld {
+				movable = false
+			}
 		}
 	}
+	r.Check("C12.P9.syncComparesPrefix", load.ShortFunc(f), "SetAllocation reachable for a subscriber the session allocator already knows", c.P.Pos(f.Pos()), movable,
+		"the announced record is applied only when the session allocator has nothing for the subscriber: a remote put that moves a known subscriber is never applied, memory and store keep disagreeing")
 	r.Check("C12.P9.syncComparesPrefix", load.ShortFunc(f), "announced record applied with SetAllocation", c.P.Pos(f.Pos()), set, "handleRemoteChange no longer applies an announced record to the session allocator")
 	if n == 0 {
 		r.Note("C12.P9: handleRemoteChange has no return conditional on an existing session allocation (every announcement is applied)")
